@@ -10,6 +10,7 @@ import (
 	"fmt"
 
 	"github.com/smart-core-os/sc-api/go/traits"
+	"google.golang.org/grpc"
 
 	"github.com/smart-core-os/sc-golang/pkg/trait/onoffpb"
 	"github.com/smart-core-os/sc-golang/pkg/wrap"
@@ -19,12 +20,22 @@ import (
 func concurrentBody(name string, updatesOnly bool, updates int) func() {
 	return func() {
 		model := onoffpb.NewModel()
-		inner := wrap.ServerToClient(traits.OnOffApi_ServiceDesc, onoffpb.NewModelServer(model))
+		direct := onoffpb.NewModelServer(model)
+		inner := wrap.ServerToClient(traits.OnOffApi_ServiceDesc, direct)
 		r := onoffpb.NewApiRouter()
 		r.Add(devName, traits.NewOnOffApiClient(inner))
 		c := traits.NewOnOffApiClient(wrap.ServerToClient(traits.OnOffApi_ServiceDesc, r))
 		ctx, cancel := context.WithCancel(context.Background())
 		defer cancel()
+		// the stream always goes through the full stack. With two updates the writer calls the model server itself
+		// (some other client of the same device, in process): each wrapped call is four more threads, and all
+		// schedules of a dozen threads are out of reach - the subscribe window under study is the stream's
+		update := c.UpdateOnOff
+		if updates > 1 {
+			update = func(ctx context.Context, req *traits.UpdateOnOffRequest, _ ...grpc.CallOption) (*traits.OnOff, error) {
+				return direct.UpdateOnOff(ctx, req)
+			}
+		}
 
 		var got []string
 		var openAt, updAt int64
@@ -57,7 +68,7 @@ func concurrentBody(name string, updatesOnly bool, updates int) func() {
 				if i == updates-1 {
 					updAt = verifrt.Stamp()
 				}
-				if _, err := c.UpdateOnOff(context.Background(), &traits.UpdateOnOffRequest{Name: devName, OnOff: &traits.OnOff{State: states[i%2]}}); err != nil {
+				if _, err := update(context.Background(), &traits.UpdateOnOffRequest{Name: devName, OnOff: &traits.OnOff{State: states[i%2]}}); err != nil {
 					verifrt.Logf("FAIL concurrent-update-error %s ## %v", name, err)
 				}
 			}
@@ -89,4 +100,75 @@ func concurrentBody(name string, updatesOnly bool, updates int) func() {
 
 func concurrentName(updatesOnly bool, updates int) string {
 	return fmt.Sprintf("concurrent/onoff/open-pull||%d-update(s)/updates_only=%v", updates, updatesOnly)
+}
+
+// leaverHistoryBody: a sequential history (one schedule, exact quiescence between the steps) in which other streams
+// on the same resource come and go while stream B stays open and keeps up: every accepted update that changes the
+// value still reaches B, once - the publication that tidies a closed stream away must not cost an open one anything.
+func leaverHistoryBody(name string, updatesOnly bool) func() {
+	return func() {
+		model := onoffpb.NewModel()
+		inner := wrap.ServerToClient(traits.OnOffApi_ServiceDesc, onoffpb.NewModelServer(model))
+		r := onoffpb.NewApiRouter()
+		r.Add(devName, traits.NewOnOffApiClient(inner))
+		c := traits.NewOnOffApiClient(wrap.ServerToClient(traits.OnOffApi_ServiceDesc, r))
+		bg := context.Background()
+		comeAndGo := func(label string) {
+			actx, acancel := context.WithCancel(bg)
+			sa, err := c.PullOnOff(actx, &traits.PullOnOffRequest{Name: devName})
+			if err == nil {
+				_, err = sa.Recv()
+			}
+			if err != nil {
+				verifrt.Logf("FAIL leaver-stream %s ## stream %s: %v", name, label, err)
+			}
+			acancel()
+			verifrt.WaitIdle()
+		}
+		bctx, bcancel := context.WithCancel(bg)
+		defer bcancel()
+		sb, err := c.PullOnOff(bctx, &traits.PullOnOffRequest{Name: devName, UpdatesOnly: updatesOnly})
+		if err != nil {
+			verifrt.Logf("FAIL leaver-stream %s ## stream B: %v", name, err)
+			return
+		}
+		var got []string
+		go func() {
+			for {
+				m, err := sb.Recv()
+				if err != nil {
+					return
+				}
+				for _, ch := range m.Changes {
+					got = append(got, ch.OnOff.GetState().String())
+				}
+			}
+		}()
+		verifrt.WaitIdle()
+		var want []string
+		if !updatesOnly {
+			want = append(want, "STATE_UNSPECIFIED")
+			if len(got) == 1 {
+				want[0] = got[0] // whatever the model starts as
+			}
+		}
+		update := func(st traits.OnOff_State) {
+			if _, err := c.UpdateOnOff(bg, &traits.UpdateOnOffRequest{Name: devName, OnOff: &traits.OnOff{State: st}}); err != nil {
+				verifrt.Logf("FAIL leaver-update %s ## %v", name, err)
+			}
+			want = append(want, st.String())
+			verifrt.WaitIdle()
+			if fmt.Sprint(got) != fmt.Sprint(want) {
+				verifrt.Logf("FAIL leaver-missed-update %s ## after Update(%v) the open stream B has received %v, expected %v", name, st, got, want)
+			}
+		}
+		comeAndGo("A")
+		update(traits.OnOff_ON)
+		update(traits.OnOff_OFF)
+		comeAndGo("C")
+		comeAndGo("D")
+		update(traits.OnOff_ON)
+		update(traits.OnOff_OFF)
+		verifrt.Logf("OUT %v", got)
+	}
 }
